@@ -66,3 +66,10 @@ Definition ordered_merge_inner_pf (L R:list Z) (lsrcs rsrcs:list (list Z)) (fm:f
 Definition ordered_merge_inner_pf_found (L R:list Z) (lsrcs rsrcs:list (list Z)) (fm:form)
            (lsinks0 rsinks0:list (list Z)) (fl fr:pyflag) :=
   ordered_merge_inner L R lsrcs rsrcs fm lsinks0 rsinks0 (hint_by_identity fl) (hint_by_identity fr).
+
+(* ------------------------------------------------------------------ key columns of two integer dtypes *)
+(* A key column is a list of mathematical integers stored in a dtype; the kernels compare the VALUES (numba promotes the
+   two operands of ==, <).  `cast_keys a b R` = R.astype(b) of a column of dtype a (the "single dtype" shortcut): values
+   outside b wrap. *)
+Definition cast_keys (a b:dtype) (R:list Z) : list Z :=
+  map (fun v => match cast a b v with Some w => w | None => v end) R.
